@@ -22,7 +22,9 @@ RULE = (
     "before item 2 is pulled) and load_many(dump_many(frames)) compared frame by frame with "
     "load_one(dump_one(frame)); (b) multi-frame files of the 7 load_many formats (XYZ, extXYZ, "
     "PDB, MOL2, SDF, GRO, FCHK optimisation / scan / IRC) written by the spec writers: frame k of "
-    "load_many equals load_one of the single-frame file and the writer's expected values; "
+    "load_many equals load_one of the single-frame file, loaded in a child forked from a pristine "
+    "interpreter state so that state leaking between frames cannot contaminate the reference "
+    "(for FCHK: the writer's expected values); "
     "(c) truncation of the file at every line boundary (sampled above 160 lines); (d) an "
     "unparsable token in one numeric field of a drawn frame. Oracle: frames are a prefix of the "
     "reference frames in file order; a frame that differs from its reference is acceptable only "
@@ -57,6 +59,84 @@ def load_all(path, fmt=None):
     return frames, error, list(wlist)
 
 
+class RefServer:
+    """Single-frame reference loads in a pristine interpreter state.
+
+    "Exactly as a single-frame file would load" is decided by a process that has never loaded
+    anything else: a server process is forked before the shard loads its first file; for every
+    request it forks a child that calls load_one and sends back the snapshot.  State that leaks
+    from one frame (or one call) to the next can therefore not contaminate the reference.
+    """
+
+    def __init__(self):
+        import multiprocessing as mp
+
+        import iodata  # noqa: F401 - imported before the fork, never used before it
+
+        self.conn, child = mp.Pipe()
+        self.pid = os.fork()
+        if self.pid == 0:
+            try:
+                self.conn.close()
+                self._serve(child)
+            finally:
+                os._exit(0)
+        child.close()
+
+    @staticmethod
+    def _serve(conn):
+        import pickle
+
+        from iodata import load_one
+
+        while True:
+            try:
+                req = conn.recv()
+            except EOFError:
+                return
+            if req is None:
+                return
+            path, fmt = req
+            rfd, wfd = os.pipe()
+            pid = os.fork()
+            if pid == 0:
+                try:
+                    os.close(rfd)
+                    with warnings.catch_warnings():
+                        warnings.simplefilter("ignore")
+                        try:
+                            out = ("ok", S.snap(load_one(path, fmt=fmt)))
+                        except Exception as exc:  # noqa: BLE001
+                            out = ("error", repr(exc))
+                    with os.fdopen(wfd, "wb") as fh:
+                        pickle.dump(out, fh)
+                finally:
+                    os._exit(0)
+            os.close(wfd)
+            with os.fdopen(rfd, "rb") as fh:
+                payload = fh.read()
+            os.waitpid(pid, 0)
+            try:
+                conn.send(pickle.loads(payload))
+            except Exception as exc:  # noqa: BLE001
+                conn.send(("error", f"reference child failed: {exc!r}"))
+
+    def load(self, path, fmt):
+        self.conn.send((path, fmt))
+        return self.conn.recv()
+
+    def close(self):
+        try:
+            self.conn.send(None)
+            self.conn.close()
+            os.waitpid(self.pid, 0)
+        except Exception:  # noqa: BLE001
+            pass
+
+
+REFSERVER = None
+
+
 # ----------------------------------------------------------------------------------------------
 # (a) dump_many
 # ----------------------------------------------------------------------------------------------
@@ -67,7 +147,12 @@ def dump_case(fmt):
         {
             "kind": st.just("dump_many"),
             "fmt": st.just(fmt),
-            "frames": st.lists(OBJ.st_object(fmt, False).filter(lambda s: s["natom"] <= 60), min_size=1, max_size=6),
+            "frames": st.lists(
+                OBJ.st_object(fmt, False)
+                .filter(lambda s: s["natom"] <= 60)
+                # labels wider than the PDB columns are refused with DumpError (C02's class "may_refuse")
+                .map(lambda s: dict(s, long_labels=False) if s.get("long_labels") else s),
+                min_size=1, max_size=6),
             "iterable": st.sampled_from(["list", "generator", "raising_generator", "tuple"]),
             "raise_at": st.integers(0, 6),
         }
@@ -270,17 +355,23 @@ def check_load(spec, tmpdir):
         return [Problem(f"C13/load_many/{fmt}/frame_count", f"file has {n} frames, load_many yields {len(frames)}")], True, labels
     for k, (model, frame) in enumerate(zip(models, frames)):
         write(texts[k])
-        with warnings.catch_warnings(record=True):
-            warnings.simplefilter("always")
-            try:
-                ref = load_one(path, fmt=iofmt)
-            except Exception as exc:  # noqa: BLE001
-                problems.append(Problem(f"C13/load_many/{fmt}/single_refused", f"frame {k} alone: {exc!r}"))
+        if REFSERVER is not None:
+            status, ref_snap = REFSERVER.load(path, iofmt)
+            if status != "ok":
+                problems.append(Problem(f"C13/load_many/{fmt}/single_refused", f"frame {k} alone: {ref_snap}"))
                 continue
-        if not frames_equal(ref, frame):
+        else:
+            with warnings.catch_warnings(record=True):
+                warnings.simplefilter("always")
+                try:
+                    ref_snap = S.snap(load_one(path, fmt=iofmt))
+                except Exception as exc:  # noqa: BLE001
+                    problems.append(Problem(f"C13/load_many/{fmt}/single_refused", f"frame {k} alone: {exc!r}"))
+                    continue
+        if ref_snap != S.snap(frame):
             problems.append(
                 Problem(f"C13/load_many/{fmt}/differs_from_single_load",
-                        f"frame {k}: {S.first_diff(S.snap(ref), S.snap(frame))}")
+                        f"frame {k}: {S.first_diff(ref_snap, S.snap(frame))}")
             )
     if problems:
         return problems, True, labels
@@ -492,8 +583,14 @@ def shard_dump(ctx, fmt, max_examples):
 
 
 def shard_load(ctx, fmt, max_examples):
+    global REFSERVER
     tmpdir = ctx.tmpdir
-    drive(ctx, load_case(fmt), lambda s: dispatch(s, tmpdir), max_examples, name=f"load_{fmt}")
+    REFSERVER = RefServer()  # forked before this process loads its first file
+    try:
+        drive(ctx, load_case(fmt), lambda s: dispatch(s, tmpdir), max_examples, name=f"load_{fmt}")
+    finally:
+        REFSERVER.close()
+        REFSERVER = None
 
 
 def shard_fchk(ctx, max_examples):
@@ -521,8 +618,15 @@ def replay(entry):
 
     spec = entry["spec"]
     _fix_sets(spec)
+    global REFSERVER
     tmpdir = tempfile.mkdtemp(prefix="ivp_c13_replay_")
+    server = REFSERVER is None and spec.get("kind") == "load_many"
+    if server:
+        REFSERVER = RefServer()
     try:
         return dispatch(spec, tmpdir)[0]
     finally:
+        if server:
+            REFSERVER.close()
+            REFSERVER = None
         shutil.rmtree(tmpdir, ignore_errors=True)
